@@ -149,6 +149,9 @@ fn conv<F: FontRepo>(h: &H, fr: &F) -> Item {
         H::Penalty(p) => Item::Penalty(p.0 as i64),
         H::Discretionary(d) => Item::Disc { pre: d.pre_break.iter().map(|e| conv(&H::from(e.clone()), fr)).collect(), post: d.post_break.iter().map(|e| conv(&H::from(e.clone()), fr)).collect(), replace: d.replace_count as usize },
         H::Math(m) => Item::Math(*m == ds::Math::After),
+        H::HBox(b) => Item::Box { whd: [b.width.0 as i64, (b.height.0 - b.shift_amount.0) as i64, (b.depth.0 + b.shift_amount.0) as i64], id: format!("hbox {}x{} {:?}", b.width.0, b.list.len(), b.list).chars().take(80).collect() },
+        H::VBox(b) => Item::Box { whd: [b.width.0 as i64, (b.height.0 - b.shift_amount.0) as i64, (b.depth.0 + b.shift_amount.0) as i64], id: format!("vbox {}x{}", b.width.0, b.list.len()) },
+        H::Rule(r) => Item::Box { whd: [r.width.0 as i64, r.height.0 as i64, r.depth.0 as i64], id: format!("rule {}", r.width.0) },
         other => Item::Other(format!("{other:?}").chars().take(60).collect()),
     }
 }
@@ -729,6 +732,18 @@ fn check_para<F: FontRepo>(idx: u64, acc: &mut Acc, case: &dyn Fn() -> Value, li
     if hl.first().map(|i| i.discardable()).unwrap_or(false) && hl.len() > 2 {
         acc.count("input_list_begins_with_discardable");
     }
+    for w in hl.windows(2) {
+        if let (Item::Kern { kind, .. }, Item::Glue(_)) = (&w[0], &w[1]) {
+            match kind {
+                KernKind::Accent | KernKind::Math => acc.count("accent_or_math_kern_followed_by_glue_in_broken_list"),
+                KernKind::Normal => acc.count("font_kern_followed_by_glue_in_broken_list"),
+                KernKind::Explicit => {}
+            }
+        }
+    }
+    if hl.iter().any(|i| matches!(i, Item::Box { .. })) {
+        acc.count("hbox_vbox_or_rule_in_broken_list");
+    }
     if hl.iter().any(|i| matches!(i, Item::Glue(g) if g.is_zero_glue())) {
         acc.count("zero_glue_item_in_list");
     }
@@ -961,6 +976,15 @@ fn hpen(p: i32) -> H {
 fn hdisc(pre: &str, post: &str, rc: u32) -> H {
     H::Discretionary(ds::Discretionary { pre_break: pre.chars().map(|c| ds::Char { char: c, font: 0 }.into()).collect(), post_break: post.chars().map(|c| ds::Char { char: c, font: 0 }.into()).collect(), replace_count: rc })
 }
+fn hbox(w: i32) -> H {
+    H::HBox(ds::HBox { width: Scaled(w * PT), height: Scaled(PT), list: vec![hch('c')], ..Default::default() })
+}
+fn hvbox(w: i32) -> H {
+    H::VBox(ds::VBox { width: Scaled(w * PT), depth: Scaled(PT), ..Default::default() })
+}
+fn hrule(w: i32) -> H {
+    H::Rule(ds::Rule { width: Scaled(w * PT), height: Scaled(PT), depth: Scaled::ZERO })
+}
 fn hkern(w: i32, kind: ds::KernKind) -> H {
     ds::Kern { width: Scaled(w * PT), kind }.into()
 }
@@ -1000,6 +1024,16 @@ fn slot_menu() -> Vec<(&'static str, Vec<H>)> {
         ("disc(-|b|2) c c", vec![hdisc("-", "b", 2), hch('c'), hch('c')]),
         ("pen9999", vec![hpen(9999)]),
         ("pen-10001 pen10001", vec![hpen(-10001), hpen(10001)]),
+        // every KernKind where the breaker / post_line_break / the pruning distinguish them: only an
+        // explicit kern is a breakpoint (before glue) and discardable; accent, math and font kerns never are
+        ("kern^ glue", vec![hkern(1, ds::KernKind::Accent), hglue(2, 1, 1)]),
+        ("kern~ glue", vec![hkern(1, ds::KernKind::Math), hglue(2, 1, 1)]),
+        ("glue kern^", vec![hglue(2, 1, 1), hkern(1, ds::KernKind::Accent)]),
+        ("glue kern~", vec![hglue(2, 1, 1), hkern(1, ds::KernKind::Math)]),
+        ("kern^", vec![hkern(1, ds::KernKind::Accent)]),
+        // boxes other than characters, also inside a discretionary
+        ("glue hbox3 rule2 glue", vec![hglue(2, 1, 1), hbox(3), hrule(2), hglue(2, 1, 1)]),
+        ("disc([rule1]|[hbox2 kern!1]|1) vbox2", vec![H::Discretionary(ds::Discretionary { pre_break: vec![ds::DiscretionaryElem::Rule(ds::Rule { width: Scaled(PT), height: Scaled(PT), depth: Scaled::ZERO })], post_break: vec![ds::DiscretionaryElem::HBox(ds::HBox { width: Scaled(2 * PT), ..Default::default() }), ds::DiscretionaryElem::Kern(ds::Kern { width: Scaled(PT), kind: ds::KernKind::Explicit })], replace_count: 1 }), hvbox(2)]),
     ]
 }
 fn head_menu() -> Vec<(&'static str, Vec<H>)> {
@@ -1089,7 +1123,7 @@ fn check_hand(idx: u64, head: u64, slots: &[u64], boxes: &[u64], tail: u64, wsel
 /// Degenerate lists: every list of 0..=3 items over a six-item alphabet (incl. the empty list, lists
 /// of discardables only, a list that is one discretionary).
 fn deg_alphabet() -> Vec<(&'static str, H)> {
-    vec![("a", hch('a')), ("glue", hglue(2, 1, 1)), ("pen-10000", hpen(-10000)), ("pen0", hpen(0)), ("kern!", hkern(1, ds::KernKind::Explicit)), ("disc(-|c|0)", hdisc("-", "c", 0))]
+    vec![("a", hch('a')), ("glue", hglue(2, 1, 1)), ("pen-10000", hpen(-10000)), ("pen0", hpen(0)), ("kern!", hkern(1, ds::KernKind::Explicit)), ("disc(-|c|0)", hdisc("-", "c", 0)), ("kern^", hkern(1, ds::KernKind::Accent))]
 }
 fn check_deg(idx: u64, sel: &[u64], wsel: u64, tsel: u64, pv: u64, acc: &mut Acc) {
     let al = deg_alphabet();
@@ -1119,6 +1153,10 @@ fn replace_menu() -> Vec<(&'static str, Vec<H>)> {
         ("disc(-||1) kern glue", vec![d(1), hkern(1, Normal), hglue(2, 1, 1)]),
         ("disc(-||2) c c kern! glue", vec![d(2), hch('c'), hch('c'), hkern(1, Explicit), hglue(2, 1, 1)]),
         ("disc(|| 1) c glue", vec![hdisc("", "", 1), hch('c'), hglue(2, 1, 1)]),
+        ("disc(-||1) kern^ glue", vec![d(1), hkern(1, ds::KernKind::Accent), hglue(2, 1, 1)]),
+        ("disc(-||1) kern~ glue", vec![d(1), hkern(1, ds::KernKind::Math), hglue(2, 1, 1)]),
+        ("disc(-||2) c kern^ glue", vec![d(2), hch('c'), hkern(1, ds::KernKind::Accent), hglue(2, 1, 1)]),
+        ("disc(-||1) rule2 kern~ glue", vec![d(1), hrule(2), hkern(1, ds::KernKind::Math), hglue(2, 1, 1)]),
     ]
 }
 const REP_OTHERS: [usize; 5] = [0, 7, 13, 11, 14]; // slot_menu: glue, pen-10000, nothing, disc(-|c|0), glue glue
@@ -1476,7 +1514,7 @@ fn main() {
     ctx.assume("width/indent sequences follow \\parshape: line i uses entry min(i, len-1); an empty indent sequence means 0");
     ctx.assume("'no line begins with discardable material' is read as TeX §879 implements it: lines after the first; material carried from a discretionary's post-break list and the item at which the line itself is broken are exempt");
     ctx.assume("skip components times space factor/1000 stay below 2^30 sp (beyond that TeX's xn_over_d raises arith_error and the result is undefined)");
-    ctx.assume("the glue set of a line box is compared with an hpack model but only recorded (outcome class + counter), never judged: the statement does not mention it (C15); math nodes are not generated (ds::Math has no width yet and HBox::pack rejects it, documented TODO)");
+    ctx.assume("the glue set of a line box is compared with an hpack model but only recorded (outcome class + counter), never judged: the statement does not mention it (C15); math, mark, insertion, adjust and whatsit nodes are not generated (HBox::pack / the breaker hit a documented todo!() on them; the statement quantifies over glue, penalty, kern items and discretionaries); glue items have GlueKind::Normal (no code in the anchored files distinguishes glue kinds, leaders are a TODO)");
     ctx.assume("not stated by the property and therefore recorded as outcome classes only (mutations/C12/AUDIT.md): other item kinds in the list made from text, glue for a space before the first word, what break_line leaves in its in/out list argument, other vertical items between the lines, a zero penalty node, the inert item TeX leaves at a break (emptied discretionary, penalty, zero-width kern)");
     ctx.assume("hyphenation itself (which discretionaries are inserted) is C13/C14; here the list left by the hyphenation pass is the list that was broken, and it must still spell the words");
     ctx.assume("inter-line glue (baselineskip) is not compared: the property does not state it");
@@ -1718,6 +1756,9 @@ fn main() {
         ("break_at_disc_with_replace_count_and_empty_post_followed_by_discardable", "a chosen break is a discretionary with replace count > 0 and empty post-break list, and discardable items follow the replaced items"),
         ("break_at_disc_replacing_an_explicit_kern", "a chosen break is a discretionary whose replaced items include an explicit kern"),
         ("break_at_disc_replacing_a_font_kern", "a chosen break is a discretionary whose replaced items include a font kern"),
+        ("accent_or_math_kern_followed_by_glue_in_broken_list", "the list holds an accent or math kern directly followed by glue (not a breakpoint, not removable)"),
+        ("font_kern_followed_by_glue_in_broken_list", "the list holds a font kern directly followed by glue"),
+        ("hbox_vbox_or_rule_in_broken_list", "the list holds an hbox, vbox or rule item"),
         ("characters_255_and_256", "text with the characters 255 (last sfcode entry) and 256 (first without one)"),
         ("penalty_sum_negative", "the penalties of §890 add up to a negative value"),
         ("penalty_sum_plus_one", "the penalties of §890 add up to +1"),
